@@ -54,6 +54,12 @@ IsNamespace(tag) == tag = "DW_TAG_namespace"
 (* (DW_OP_GNU_parameter_ref), entryval (DW_OP_call_ref nested in            *)
 (* DW_OP_entry_value), deref_type, regval_type, const_type, convert,        *)
 (* reinterpret (base type operand).                                         *)
+(* A location-list reference also says in which kind of raw location entry   *)
+(* the expression sits (field loc): every entry kind that carries an         *)
+(* expression counts (FilterUnit::add_location_refs), only the base address  *)
+(* entries carry none.  In .debug_loc (DWARF <= 4) all of them are the one   *)
+(* address-or-offset pair, optionally after a base address selection entry.  *)
+LocEntryKinds == <<"offset_pair", "start_end", "start_length", "startx_endx", "startx_length", "default_location">>
 UnitOps == <<"call", "paramref">>
 TypedOps == <<"deref_type", "regval_type", "const_type", "convert", "reinterpret">>
 InfoOps == <<"callref", "implptr", "varval", "entryval">>
